@@ -527,6 +527,73 @@ def check_index_classes(idx: Index, rep: Report) -> None:
                 r.ok(f.fq, f"{f.loc} negative index {'normalised and ' if normalised else ''}rejected before the slice rebuild")
             else:
                 r.fail(f.fq, Finding("C01.R5", f.fq, "negative-index", f"`{unparse(n)[:100]}`: for {ixn} = -1 the element access uses the last position but xs[:{ixn}] + [v] + xs[{ixn}+1:] = xs[:-1] + [v] + xs[0:]: the rebuilt tuple has 2n-1 entries for n uses", f"{f.module.relpath}:{n.lineno}"))
+    # the same rebuild anywhere else in the IR core / rewriters: `xs[:i] + ... + xs[i + 1:]` (or the starred form) is only right
+    # for i >= 0.  The index is fine when it comes from a position lookup (index(), get_*_index(), .index of a result /
+    # argument, enumerate / range); an index handed in by the caller needs the negative case rejected (or normalised and
+    # rejected) before the rebuild.
+    done = {q for q, _ in sites}
+    for mod in (CORE, "xdsl/rewriter.py", "xdsl/pattern_rewriter.py"):
+        for f in raw_funcs(idx.module(mod)):
+            if f.qualname in done:
+                continue
+            cfg = None
+            for n in walk_local(f.node):
+                if not isinstance(n, ast.Assign):
+                    continue
+                m = re.search(r"\[:(\w+)\].*\[\1 \+ 1:\]", unparse(n.value))
+                if not m:
+                    continue
+                ixn = m.group(1)
+                if cfg is None:
+                    cfg = CFG(f.node)
+                inst = f"{f.fq}:{ixn}"
+                srcs = Deriv(cfg).expand(ast.Name(id=ixn, ctx=ast.Load()), cfg.node_of(n))
+                params = {a.arg for a in f.node.args.posonlyargs + f.node.args.args + f.node.args.kwonlyargs}
+
+                def nonneg(e: ast.AST) -> bool:
+                    t = unparse(e)
+                    if isinstance(e, ast.Call) and (call_attr(e) == "index" or re.fullmatch(r"get_\w*index", call_attr(e) or "") or t.startswith("len(")):
+                        return True
+                    if isinstance(e, ast.Attribute) and e.attr == "index":
+                        return True
+                    if isinstance(e, ast.Constant) and isinstance(e.value, int) and e.value >= 0:
+                        return True
+                    return False
+
+                caller = [e for e in srcs if isinstance(e, ast.Name) and e.id in params]
+                unknown = [e for e in srcs if not nonneg(e) and e not in caller]
+                loopvar = any(isinstance(w, ast.For) and any(isinstance(x, ast.Name) and x.id == ixn for x in ast.walk(w.target)) for w in walk_local(f.node))
+                if loopvar or (not caller and not unknown):
+                    r.ok(inst, f"{f.module.relpath}:{n.lineno} index from a position lookup / loop counter")
+                    continue
+                if unknown and not caller:
+                    raise AnalysisError(f"{f.fq}: where the index `{ixn}` of the slice rebuild comes from (`{unparse(unknown[0])[:50]}`) is not understood")
+                # path form: from every assignment that can make the index negative (the caller's value, `i += len(xs)`),
+                # each path to the rebuild crosses the non-negative edge of a test `i < 0` / `0 <= i` before any other
+                # assignment of the index
+                assigns = [s_ for s_ in walk_local(f.node) if (isinstance(s_, ast.Assign) and len(s_.targets) == 1 and unparse(s_.targets[0]) == ixn) or (isinstance(s_, ast.AugAssign) and unparse(s_.target) == ixn)]
+                starts = [cfg.node_of(s_) for s_ in assigns if isinstance(s_, ast.AugAssign) or not nonneg(s_.value)]
+                if ixn in params:
+                    starts.append(cfg.entry)
+                anodes = {cfg.node_of(s_) for s_ in assigns}
+                good: set[tuple[int, str]] = set()
+                for nd in cfg.nodes:
+                    if nd.kind == "test" and nd.ast is not None:
+                        c_ = canon_cmp(nd.ast)
+                        if re.fullmatch(rf"{ixn} < 0", c_):
+                            good.add((nd.id, "F"))
+                        elif re.fullmatch(rf"0 <= {ixn}|{ixn} >= 0", c_):
+                            good.add((nd.id, "T"))
+                dst = cfg.node_of(n)
+                leak = None
+                for st_ in starts:
+                    leak = cfg.path_avoiding(st_, dst, lambda x: x.id in anodes, follow_exc=False, edge_ok=lambda a_, b_, lab: (a_, lab) not in good)
+                    if leak is not None:
+                        break
+                if leak is None:
+                    r.ok(inst, f"{f.module.relpath}:{n.lineno} negative index rejected before the slice rebuild")
+                else:
+                    r.fail(inst, Finding("C01.R5", f.fq, "negative-index", f"`{unparse(n)[:100]}`: `{ixn}` can be the caller's `{caller[0].id}`; for -1 the element access `xs[{ixn}]` uses the last position but xs[:{ixn}] + xs[{ixn}+1:] = xs[:-1] + xs[0:]: the rebuilt tuple has 2n-1 entries and still contains the element", f"{f.module.relpath}:{n.lineno}"))
     # insert_arg / erase_arg / replace_value_with_new_type
     f = idx.func(CORE, "Block.insert_arg")
     index = f.node.args.args[2].arg
@@ -755,6 +822,32 @@ def check_attach_last(idx: Index, rep: Report) -> None:
             else:
                 r.ok(inst, None)
     r.samples[:] = ["Block.insert_op_before: `existing_op.parent is not self` is tested before self._attach_op(new_op)"]
+    # the same for the list itself: a rejection after the first link / end-pointer store leaves the list half-edited
+    r2 = rep.rule("C01.R6d", "no editing primitive of Block / Region / Operation rejects the call (explicit raise) after it has already written a link or end-pointer field: validation precedes the first store", floor=None)
+    n_fn = 0
+    for f in raw_funcs(mi):
+        if f.cls is None or f.cls.name not in ("Block", "Region", "Operation"):
+            continue
+        stores = [x for x in walk_local(f.node) if isinstance(x, ast.Assign) and len(x.targets) == 1 and isinstance(x.targets[0], ast.Attribute) and x.targets[0].attr in LINK_FIELDS | END_FIELDS]
+        raises = [n for n in walk_local(f.node) if isinstance(n, ast.Raise) and n.exc is not None]
+        if not stores or not raises:
+            continue
+        n_fn += 1
+        cfg = CFG(f.node)
+        inst = f"{f.fq}:validation-first"
+        bad = None
+        for st in stores:
+            after = cfg.reachable(cfg.node_of(st), follow_exc=False)
+            late = [x for x in raises if cfg.node_of(x) in after]
+            if late:
+                bad = (st, late[0])
+                break
+        if bad:
+            st, x = bad
+            r2.fail(inst, Finding("C01.R6d", f.fq, f"raise-after-store:{st.targets[0].attr}", f"`{unparse(x)[:70]}` (line {x.lineno}) can be reached after `{unparse(st)[:60]}` (line {st.lineno}) has been written: the rejected call leaves the list with that store done and the rest of the edit missing (forward and backward order, or the end pointers, disagree for the next call)", f"{f.module.relpath}:{x.lineno}"))
+        else:
+            r2.ok(inst, f"{f.loc} every raise precedes the first link / end-pointer store")
+    rep.extra.setdefault("c01_r6d_functions", n_fn)
 
 
 def _parents(fn: ast.AST) -> dict[int, ast.AST]:
